@@ -19,6 +19,7 @@ type C09Pub struct {
 	Shape   int `json:"shape"`
 	ID      int `json:"id"`
 	Variant int `json:"variant"`
+	Bad     int `json:"bad,omitempty"` // >0: a PVal that has no JSON encoding (channel / func / NaN): no record is expected for it
 }
 
 type C09Scenario struct {
@@ -40,7 +41,7 @@ func genC09(rt *rapid.T) core.Scenario {
 			sc.Opts = append(sc.Opts, o)
 		}
 	}
-	sc.Store = StoreCfg{Kind: rapid.SampledFrom([]string{"mem", "mem", "naive", "sqlite"}).Draw(rt, "store")}
+	sc.Store = StoreCfg{Kind: rapid.SampledFrom([]string{"mem", "mem", "naive", "sqlite", "ds"}).Draw(rt, "store")}
 	np := rapid.IntRange(1, 4).Draw(rt, "nPublishers")
 	id := 0
 	for p := 0; p < np; p++ {
@@ -48,7 +49,11 @@ func genC09(rt *rapid.T) core.Scenario {
 		var l []C09Pub
 		for i := 0; i < n; i++ {
 			id++
-			l = append(l, C09Pub{Shape: rapid.IntRange(0, len(shapes)-1).Draw(rt, "shape"), ID: id, Variant: rapid.IntRange(0, 5).Draw(rt, "variant")})
+			pb := C09Pub{Shape: rapid.IntRange(0, len(shapes)-1).Draw(rt, "shape"), ID: id, Variant: rapid.IntRange(0, 5).Draw(rt, "variant")}
+			if rapid.IntRange(0, 7).Draw(rt, "unencodable") == 7 {
+				pb.Shape, pb.Bad = 0, rapid.IntRange(1, 3).Draw(rt, "badKind")
+			}
+			l = append(l, pb)
 		}
 		sc.Pubs = append(sc.Pubs, l)
 	}
@@ -63,12 +68,18 @@ func (sc *C09Scenario) Execute(t *testing.T) *core.Outcome {
 	var rec core.Recorder
 	total := 0
 	pubOf := map[int]C09Pub{}
+	nBad := 0
 	for _, l := range sc.Pubs {
 		for _, p := range l {
 			pubOf[p.ID] = p
-			total++
+			if p.Bad > 0 {
+				nBad++
+			} else {
+				total++
+			}
 		}
 	}
+	persistErrors := 0
 	hookCalls := 0
 	body := func() {
 		env := newStoreEnv()
@@ -97,7 +108,10 @@ func (sc *C09Scenario) Execute(t *testing.T) *core.Outcome {
 				opts = append(opts, eventbus.WithObservability(nopObs{}))
 			case "errhandler":
 				opts = append(opts, eventbus.WithPersistenceErrorHandler(func(ev any, et reflect.Type, err error) {
-					out.V("persistence-error", "persistence error handler called on a fault-free store: %v", err)
+					persistErrors++
+					if id, ok := shapes[0].IDOf(ev); !ok || pubOf[id].Bad == 0 {
+						out.V("persistence-error", "persistence error handler called on a fault-free store for an encodable event: %v", err)
+					}
 				}))
 			case "substore":
 				opts = append(opts, eventbus.WithSubscriptionStore(eventbus.NewMemoryStore()))
@@ -137,6 +151,12 @@ func (sc *C09Scenario) Execute(t *testing.T) *core.Outcome {
 							found++
 						}
 					}
+					if pubOf[id].Bad > 0 {
+						if found != 0 {
+							out.V("record-content", "unencodable event %d left %d records", id, found)
+						}
+						return
+					}
 					if found != 1 {
 						out.V("not-recorded-before-delivery", "handler of event %d (shape %s, options %v) found %d records of it in the store (%d records in total)", id, sh.Name, sc.Opts, found, len(evs))
 					}
@@ -153,6 +173,10 @@ func (sc *C09Scenario) Execute(t *testing.T) *core.Outcome {
 			tasks = append(tasks, simrt.GoNamed(fmt.Sprintf("pub%d", pi), func() {
 				for _, p := range l {
 					rec.Add("pub", p.ID, p.Shape, "")
+					if p.Bad > 0 {
+						eventbus.PublishContext(bus, ctx, mkUnencodable(p.ID, p.Bad))
+						continue
+					}
 					shapes[p.Shape].Pub(bus, ctx, p.ID, p.Variant)
 				}
 			}))
@@ -185,8 +209,8 @@ func (sc *C09Scenario) Execute(t *testing.T) *core.Outcome {
 				continue
 			}
 			sh := shapes[p.Shape]
-			if e.Type != sh.TypeName {
-				out.V("record-type", "event %d (shape %s) recorded under type %q, EventType reports %q", id, sh.Name, e.Type, sh.TypeName)
+			if e.Type != sh.nameOf(p.ID, p.Variant) {
+				out.V("record-type", "event %d (shape %s) recorded under type %q, EventType reports %q", id, sh.Name, e.Type, sh.nameOf(p.ID, p.Variant))
 			}
 			if !jsonEqual(e.Data, sh.Marshal(p.ID, p.Variant)) {
 				out.V("record-content", "event %d recorded as %s, its JSON encoding is %s", id, trunc(string(e.Data)), trunc(string(sh.Marshal(p.ID, p.Variant))))
@@ -195,7 +219,16 @@ func (sc *C09Scenario) Execute(t *testing.T) *core.Outcome {
 				out.V("record-roundtrip", "decoding the record of event %d (shape %s) does not yield the published value", id, sh.Name)
 			}
 		}
-		for id := range pubOf {
+		for id, p := range pubOf {
+			if p.Bad > 0 {
+				if seen[id] != 0 {
+					out.V("record-count", "unencodable event %d has %d records", id, seen[id])
+				}
+				if sc.Handler && handled[id] != 1 {
+					out.V("delivery-count", "unencodable event %d delivered %d times", id, handled[id])
+				}
+				continue
+			}
 			if seen[id] != 1 {
 				out.V("record-count", "event %d has %d records (bus options in order: %v)", id, seen[id], sc.Opts)
 			}
